@@ -30,36 +30,38 @@ Framed(v) == IF v = <<>> THEN <<>>
 
 Nals(v)  == [i \in 1..Len(v) |-> v[i].sy]
 Sei(n)   == n[1] = "S"
-Impls    == {"asis", "intended"}
+Impls    == {"current", "pinned"}
 
 Init == /\ vec \in Space
         /\ outs = [inc \in BOOLEAN |-> [impl \in Impls |-> Run(Framed(vec), inc, impl)]]
 Next == UNCHANGED <<vec, outs>>
 
 \* ---- what TLC checks on the model -------------------------------------------------------
-\* the intended algorithm returns exactly the framed units, SEI skipped when inclusion is off
-IntendedExact ==
-  \A inc \in BOOLEAN : Returned(outs[inc]["intended"], Nals(vec), Sei, inc)
-\* with inclusion ON the code as it is returns exactly the framed units too
-AsisExactWhenIncluded == Returned(outs[TRUE]["asis"], Nals(vec), Sei, TRUE)
-\* with inclusion OFF the code as it is is exact if and only if the last unit is not SEI,
-\* and then the only error is that this last SEI unit is returned
-AsisCharacterised ==
-  LET out  == outs[FALSE]["asis"]
-      last == vec[Len(vec)].sy
-  IN  IF Sei(last) THEN out = Append(Filter(Nals(vec), Sei, FALSE), last)
-                   ELSE Returned(out, Nals(vec), Sei, FALSE)
+\* the code as it is returns exactly the framed units, SEI skipped when inclusion is off
+CurrentExact ==
+  \A inc \in BOOLEAN : Returned(outs[inc]["current"], Nals(vec), Sei, inc)
 \* the two conjuncts used on recorded traces are together the same as "exactly"
 SplitIsExact ==
   \A inc \in BOOLEAN : \A impl \in Impls :
      LET out == outs[inc][impl] IN
      (ExactNals(out, Nals(vec), Sei, inc) /\ SeiSkipped(out, Sei, inc)) = Returned(out, Nals(vec), Sei, inc)
-\* the property as it is stated, for the code as it is (expected to FAIL: AnnexBVec_asis.cfg)
-AsisExact ==
-  \A inc \in BOOLEAN : Returned(outs[inc]["asis"], Nals(vec), Sei, inc)
+\* ---- the pinned code (before 7b855c6), documented counterexample only
+\* with inclusion ON it returned exactly the framed units too
+PinnedExactWhenIncluded == Returned(outs[TRUE]["pinned"], Nals(vec), Sei, TRUE)
+\* with inclusion OFF it was exact if and only if the last unit is not SEI, and then the only
+\* error was that this last SEI unit is returned
+PinnedCharacterised ==
+  LET out  == outs[FALSE]["pinned"]
+      last == vec[Len(vec)].sy
+  IN  IF Sei(last) THEN out = Append(Filter(Nals(vec), Sei, FALSE), last)
+                   ELSE Returned(out, Nals(vec), Sei, FALSE)
+\* the property as it is stated, for the pinned code (expected to FAIL: AnnexBVec_pinned.cfg)
+PinnedExact ==
+  \A inc \in BOOLEAN : Returned(outs[inc]["pinned"], Nals(vec), Sei, inc)
 
 \* ---- emission ---------------------------------------------------------------------------
+\* curOff / curOn: what the code as it is returns (model prediction, compared with pion as drift)
 EmitVec == Emit => PrintT(<<"VERIF_VEC", ToJson([units |-> vec,
-                                                 asisOff |-> outs[FALSE]["asis"],
-                                                 want    |-> Filter(Nals(vec), Sei, FALSE)])>>)
+                                                 curOff |-> outs[FALSE]["current"],
+                                                 curOn  |-> outs[TRUE]["current"]])>>)
 =============================================================================
